@@ -642,6 +642,189 @@ def w_mwfn(m, lay, rng, variant):
     return "m.mwfn", "\n".join(lines) + "\n", {"atnums": z, "atcorenums": q, "atcoords": np.array(xyz)}
 
 
+ELEMENT_NAMES = {1: "Hydrogen", 6: "Carbon", 8: "Oxygen", 13: "Aluminium", 14: "Silicon", 21: "Scandium", 26: "Iron", 30: "Zinc", 47: "Silver", 64: "Gadolinium"}
+
+
+def cp2k_radial_norm(l, alpha):
+    """L2 norm constant of the radial function r^l exp(-alpha r^2) on r^2 dr: CP2K ATOM prints expansion coefficients with respect to
+    these unnormalised radial functions, iodata stores coefficients of normalised primitives.
+    int_0^inf r^(2l+2) exp(-2 alpha r^2) dr = Gamma(l + 3/2) / (2 (2 alpha)^(l + 3/2))."""
+    from math import gamma
+    return ((2.0 * (2.0 * alpha) ** (l + 1.5)) / gamma(l + 1.5)) ** 0.5
+
+
+def w_cp2klog(m, lay, rng, variant):
+    """CP2K ATOM output (one atom): both basis sets, method, potential, total energy, orbital energies and expansion coefficients in
+    the shape CP2K 2.4-2.6 prints them (transcribed from the sample outputs).  `m.natom` only seeds the shape of the atom.
+
+    variant: <ae|pp>_<con|unc>[_u]: all-electron or pseudopotential calculation, contracted or uncontracted basis in use, `_u`
+    unrestricted.  The basis that is *not* in use is printed in the other style, with a different number of functions.
+    Orbitals follow spec/AtomOrbitals.tla: one record per (l, state), one coefficient per radial function of that l."""
+    n = m.natom
+    pot, style = variant.split("_")[:2]
+    unres = variant.endswith("_u")
+    z = [8, 13, 14, 21, 26, 30, 47, 64, 6, 1][rng.randrange(10)]
+    lmax = rng.choice([1, 2, 2, 3, 3])
+    core = 0 if pot == "ae" else rng.choice([2, 10, 18] if z > 20 else [2])
+    if core >= z:
+        core = 0
+        pot = "ae"
+    q = float(z - core)
+
+    def make_basis(kind, salt):
+        """-> list over l of (exponents, coefficient matrix nprim x nfun) for the contracted style, (exponents, None) otherwise"""
+        out = []
+        for l in range(lmax + 1):
+            nprim = rng.randint(1, 4)
+            expo = sorted({round(0.11 * (salt + 1) + 3.7 ** k * (0.23 + 0.01 * l) + 0.001 * rng.randint(0, 99), 6 if kind == "con" else 8)
+                           for k in range(nprim)}, reverse=(kind == "con"))
+            if kind == "con":
+                nfun = rng.randint(1, 3)
+                cm = [[round((-1) ** (i + j) * (0.2 + 0.37 * i + 0.0113 * j + 0.001 * rng.randint(0, 99)), 6) for j in range(nfun)] for i in range(len(expo))]
+                out.append((expo, cm))
+            else:
+                out.append((expo, None))
+        return out
+
+    used_kind = style
+    other_kind = "unc" if style == "con" else "con"
+    used = make_basis(used_kind, 0)
+    other = make_basis(other_kind, 1)
+    ae, pp = (used, other) if pot == "ae" else (other, used)
+    ae_kind, pp_kind = (used_kind, other_kind) if pot == "ae" else (other_kind, used_kind)
+    nfun = [len(cm[0]) if cm is not None else len(ex) for ex, cm in used]
+
+    def basis_lines(b, kind):
+        lines = [""]
+        if kind == "con":
+            lines += [" ********************** Contracted Gaussian Type Orbitals **********************"]
+            for l, (ex, cm) in enumerate(b):
+                lines.append(f" {'spdf'[l]} Functions")
+                for a, row in zip(ex, cm):
+                    lines.append(f"{a:15.6f}{row[0]:15.6f}" + "".join(f"{c:10.6f}" for c in row[1:]))
+        else:
+            lines += [" ********************* Uncontracted Gaussian Type Orbitals *********************", ""]
+            for l, (ex, _cm) in enumerate(b):
+                for i, a in enumerate(ex):
+                    head = f" {'spdf'[l]} Exponents:" if i == 0 else ""
+                    lines.append(f"{head:<13s}{i + 1:21d}{a:46.8f}")
+                if l < len(b) - 1:
+                    lines.append("")
+        lines.append(" *******************************************************************************")
+        return lines
+
+    name = ELEMENT_NAMES[z]
+    sym = SYMBOLS[z - 1]
+    lines = ["", " CP2K| version string:                                        CP2K version 2.6", " GLOBAL| Method name                                                        ATOM", "", ""]
+    lines += [f" Atomic Energy Calculation{name:>19s} [{sym}]" + " " * (12 - len(sym)) + f"Atomic number:{z:5d}", "", "", " All Electron Basis"]
+    lines += basis_lines(ae, ae_kind) + ["", " Pseudopotential Basis"] + basis_lines(pp, pp_kind) + [""]
+    lines += [f" METHOD    | {'Unrestricted' if unres else 'Restricted'} Kohn-Sham Calculation", " METHOD    | Nonrelativistic Calculation",
+              " FUNCTIONAL| ROUTINE=NEW", " FUNCTIONAL| PBE:", ""]
+    if pot == "pp":
+        lines += [" ***************************** GTH Pseudopotential *****************************", f"          Core Charge{q:59.1f}",
+                  f"          Rc{0.244554:68.6f}", " *******************************************************************************", ""]
+    else:
+        lines += [" **************************** All Electron Potential ***************************",
+                  " *******************************************************************************", ""]
+    # occupied (l, state) records: the number of states per l is independent of everything else (at most the number of functions)
+    nstate = [min(nfun[l], rng.choice([[1, 2, 3], [0, 1, 2, 2], [0, 0, 1, 1], [0, 0, 1]][l])) for l in range(lmax + 1)]
+    if sum(nstate) == 0:
+        nstate[0] = 1
+    recs = [(l, s + 1) for l in range(lmax + 1) for s in range(nstate[l])]
+    spins = ["alpha", "beta"] if unres else [""]
+    occ, ener, coef = {}, {}, {}
+    for k, (l, s) in enumerate(recs):
+        for sp in spins:
+            full = (2 * l + 1) * (1 if unres else 2)
+            # whole numbers of electrons, partially filled last shells, an empty beta shell now and then
+            o = float(rng.choice([full, full, max(full - 2, 0) if not unres else max(full - 1, 0), 0 if sp == "beta" else full]))
+            occ[(l, s, sp)] = o
+            ener[(l, s, sp)] = round(-20.0 / (1 + k) + 0.731 * l + (0.0173 if sp == "beta" else 0.0) + 0.000001 * rng.randint(0, 999), 6)
+            coef[(l, s, sp)] = [float(f"{(-1) ** (i + k) * (0.31 + 0.173 * i + 0.0191 * k + (0.005 if sp == 'beta' else 0.0) + 1e-7 * rng.randint(0, 9999)):.15E}")
+                                for i in range(nfun[l])]
+    if not unres and sum(occ.values()) % 2:
+        occ[(recs[0][0], recs[0][1], "")] += 1.0
+    nelec = sum(occ.values())
+    lines += [" Electronic structure", f"    Total number of core electrons{float(core):46.2f}", f"    Total number of valence electrons{nelec:43.2f}",
+              f"    Total number of electrons{nelec + core:51.2f}", "    Multiplicity                                                   not specified", "", "",
+              " *******************************************************************************",
+              "                  Iteration          Convergence                     Energy [au]",
+              " *******************************************************************************"]
+    energy = round(-0.5 * z ** 2.4 - 0.001 * n - 1e-9 * rng.randint(0, 999999), 12)
+    lines += [f"{1:27d}{0.476859:16.6f}{energy + 0.16:37.12f}", f"{2:27d}{0.191822E-06:20.6E}{energy:33.12f}", "",
+              f" Energy components [Hartree]           Total Energy ::{energy:26.12f}",
+              f"                                        Band Energy ::{-21.501903996734:26.12f}",
+              f"                                     Kinetic Energy ::{-energy + 0.3:26.12f}", ""]
+    ev = 27.2113838565563
+    if unres:
+        lines += [" Orbital energies  State     Spin  L     Occupation   Energy[a.u.]    Energy[eV]", ""]
+    else:
+        lines += [" Orbital energies  State     L     Occupation   Energy[a.u.]          Energy[eV]", ""]
+    for l in range(lmax + 1):
+        if nstate[l] == 0:
+            continue
+        for s in range(1, nstate[l] + 1):
+            for sp in spins:
+                o, e = occ[(l, s, sp)], ener[(l, s, sp)]
+                if unres:
+                    lines.append(f"{s:24d}{sp:>9s}{l:3d}{o:15.3f}{e:15.6f}{e * ev:14.6f}")
+                else:
+                    lines.append(f"{s:24d}{l:6d}{o:15.3f}{e:15.6f}{e * ev:20.6f}")
+        lines.append("")
+    lines.append("")
+    for sp in spins:
+        lines += [f" Atomic orbital expansion coefficients [{sp.capitalize()}]", ""]
+        for l, s in recs:
+            lines.append(f"    ORBITAL      L = {l}      State ={s:4d}")
+            lines += [f"{c:30.15E}" for c in coef[(l, s, sp)]]
+            lines.append("")
+    lines += ["", "                             NORMAL TERMINATION OF     ", ""]
+    # ---- what the file says, in iodata's terms
+    exps, cfs, angmoms, kinds, ncons = [], [], [], [], []
+    for l, (ex, cm) in enumerate(used):
+        kind = "c" if l < 2 else "p"
+        if cm is not None:
+            ncons.append(len(cm[0]))
+            angmoms += [l] * len(cm[0])
+            kinds += [kind] * len(cm[0])
+            exps += list(ex)
+            for a, row in zip(ex, cm):
+                cfs += [c / cp2k_radial_norm(l, a) for c in row]
+        else:
+            for a in ex:
+                ncons.append(1)
+                angmoms.append(l)
+                kinds.append(kind)
+                exps.append(a)
+                cfs.append(1.0 / cp2k_radial_norm(l, a))
+    off = [0]
+    for l in range(lmax + 1):
+        off.append(off[-1] + (2 * l + 1) * nfun[l])
+    nbasis = off[-1]
+    norb = sum(2 * l + 1 for l, _s in recs)
+    blocks, places = [], []
+    for sp in spins:
+        cmat = np.zeros((nbasis, norb))
+        es, os_ = [], []
+        col = 0
+        for ri, (l, s) in enumerate(recs):
+            for im in range(2 * l + 1):
+                for ic, c in enumerate(coef[(l, s, sp)]):
+                    cmat[off[l] + (2 * l + 1) * ic + im, col] = c
+                    places.append({"spin": sp or "both", "l": l, "r": ri + 1, "ic": ic, "im": im, "value": c})
+                es.append(ener[(l, s, sp)])
+                os_.append(occ[(l, s, sp)] / (2 * l + 1))
+                col += 1
+        blocks.append((cmat, es, os_))
+    exp = {"atnums": [z], "atcorenums": [q], "atcoords": np.zeros((1, 3)), "energy": energy, "obasis.angmoms": angmoms, "obasis.kinds": kinds,
+           "obasis.ncons": ncons, "obasis.exponents": exps, "obasis.coeffs": cfs, "obasis.primitive_normalization": "L2",
+           "mo.kind": "unrestricted" if unres else "restricted", "mo.norba": norb, "mo.norbb": norb,
+           "mo.coeffs": np.hstack([b[0] for b in blocks]), "mo.energies": [e for b in blocks for e in b[1]],
+           "mo.occs": [o for b in blocks for o in b[2]],
+           "_atom": {"nfun": nfun, "recs": [l for l, _s in recs], "places": places, "norb": norb, "unres": unres}}
+    return "atom.cp2k.out", "\n".join(lines) + "\n", exp
+
+
 def _fchk_array(lay, label, vals, real):
     rec = lay["fchk_rarray" if real else "fchk_iarray"]
     out = [render_record(rec, {"label": label, "count": len(vals)})]
@@ -737,14 +920,15 @@ def w_fchk(m, lay, rng, variant):
 WRITERS = {"xyz": w_xyz, "extxyz": w_extxyz, "sdf": w_sdf, "pdb": w_pdb, "gromacs": w_gro, "charmm": w_crd, "mol2": w_mol2,
            "poscar": w_poscar, "chgcar": w_chgcar, "locpot": w_locpot, "cube": w_cube, "fcidump": w_fcidump,
            "gaussianinput": w_gaussianinput, "json_qcschema": w_json, "fchk": w_fchk, "gaussianlog": w_gaussianlog,
-           "orcalog": w_orcalog, "gamess": w_gamess, "qchemlog": w_qchemlog, "wfx": w_wfx, "mwfn": w_mwfn}
+           "orcalog": w_orcalog, "gamess": w_gamess, "qchemlog": w_qchemlog, "wfx": w_wfx, "mwfn": w_mwfn, "cp2klog": w_cp2klog}
 VARIANTS = {"xyz": ["plain", "numbers"], "poscar": ["direct", "cartesian", "selective", "scaled", "repeated"], "cube": ["five", "ragged", "six", "one", "nval"],
             "gromacs": ["rect", "triclinic"], "json_qcschema": ["plain", "massnumbers"], "gaussianlog": ["plain", "twoel"], "orcalog": ["plain", "opt", "longscf"], "gamess": ["plain", "opt"],
             "qchemlog": ["plain", "unrestricted", "freq"], "wfx": ["plain", "gradient", "gradient_permuted"], "fchk": ["plain", "shuffled"],
-            "gaussianinput": ["plain", "route_units", "route_long"], "fcidump": ["plain", "upper"], "mwfn": ["plain", "ecp"]}
+            "gaussianinput": ["plain", "route_units", "route_long"], "fcidump": ["plain", "upper"], "mwfn": ["plain", "ecp"],
+            "cp2klog": ["ae_con", "pp_con", "ae_unc", "pp_unc", "ae_con_u", "pp_unc_u", "ae_unc_u", "pp_con_u"]}
 # coordinate digits written per format and the magnitude classes its columns can hold
 DIGITS = {"xyz": 8, "extxyz": 8, "sdf": 4, "pdb": 3, "gromacs": 3, "charmm": 5, "mol2": 4, "poscar": 8, "chgcar": 8, "locpot": 8, "cube": 6,
-          "fcidump": 3, "gaussianinput": 8, "json_qcschema": 8, "fchk": 8, "gaussianlog": 6, "orcalog": 6, "gamess": 10, "qchemlog": 10, "wfx": 10, "mwfn": 8}
+          "fcidump": 3, "gaussianinput": 8, "json_qcschema": 8, "fchk": 8, "gaussianlog": 6, "orcalog": 6, "gamess": 10, "qchemlog": 10, "wfx": 10, "mwfn": 8, "cp2klog": 6}
 MAGS = {"sdf": ["small", "neg", "negwide", "negwider", "wide", "mixed"], "pdb": ["small", "neg", "negwide", "wide", "mixed"],
         "gromacs": ["small", "neg", "neghundred", "hundred", "mixed"], "charmm": ["small", "neg", "negwide", "negwider", "mixed"],
         "mol2": ["small", "negwide", "negwider", "mixed"], "cube": ["small", "neg", "negwide", "mixed"]}
@@ -753,5 +937,5 @@ SIZES = {"xyz": [1, 3, 10, 100, 1200], "extxyz": [1, 3, 10, 120], "sdf": [1, 2, 
          "mol2": [1, 2, 10, 100, 1000], "poscar": [1, 2, 5, 8, 30], "chgcar": [1, 2, 5, 8], "locpot": [1, 2, 5], "cube": [1, 2, 3, 7],
          "fcidump": [1, 2, 3, 4], "gaussianinput": [1, 3, 10, 60], "json_qcschema": [1, 3, 10, 100], "fchk": [1, 2, 3, 5, 6, 7, 11],
          "gaussianlog": [1, 2, 4, 5, 6, 7, 10, 11, 12, 16, 21], "orcalog": [1, 2, 3, 10, 100, 120], "gamess": [1, 2, 3, 4, 5, 6, 11, 34],
-         "qchemlog": [1, 2, 3, 4, 5, 7, 12, 30], "wfx": [1, 2, 3, 4, 7, 12], "mwfn": [1, 2]}
+         "qchemlog": [1, 2, 3, 4, 5, 7, 12, 30], "wfx": [1, 2, 3, 4, 7, 12], "mwfn": [1, 2], "cp2klog": [1, 2, 3, 4, 5, 6, 7, 8, 9, 10, 11, 12]}
 COORD_UNIT = {"gromacs": "nanometer", "cube": "au", "fchk": "au", "json_qcschema": "au", "orcalog": "au", "wfx": "au"}
